@@ -22,7 +22,8 @@ RUNS = {"quick": 2400, "thorough": 40000}
 BUDGET = {"quick": 75, "thorough": 3000}
 RULE = ("seeded scenarios of three workloads: A = 1-2 real TCP client contexts against a real TCP server context, "
         "1-8 requests/responses whose option+payload lengths are drawn around 12/13, 268/269, 65804/65805, concurrent "
-        "requests, handler delays, optional reset/refusal; Bs/Bc = scripted RFC 8323 peer (reference codec) against a "
+        "requests, handler delays, optional reset/refusal; a peer that stops reading (the client's close() then cannot "
+        "complete) and says Release/Abort; Bs/Bc = scripted RFC 8323 peer (reference codec) against a "
         "real server / client context with 3-20 frames: CSM first/missing/late, requests, responses, Ping, Pong, "
         "Release, Abort, unknown 7.xx, empty messages, elective/critical signalling options, TKL 9-15, oversize "
         "frames, unparsable frames, garbage, at any position. Every direction is cut into chunks by a policy (whole, "
@@ -49,7 +50,7 @@ ASSUMPTIONS = ["the stream transport model follows asyncio's selector transport 
 EXPECTED_PROBES = ["len_nibble", "len_ext1", "len_ext2", "len_ext4", "at_12", "at_13", "at_268", "at_269", "at_65804",
                    "at_65805", "cut_points", "bytewise", "abort_expected", "ping", "release", "peer_abort", "empty",
                    "csm_missing", "csm_late", "tkl", "oversize", "unparsable", "critical_sig_option", "concurrent",
-                   "twin_compared", "reset", "pending_failed"]
+                   "twin_compared", "reset", "pending_failed", "close_lingers"]
 
 MAX_MSG = 1024 * 1024
 SERVER_IP = "fd00::1"
@@ -693,7 +694,18 @@ def gen_bc(r, tier):
         if frames:
             steps.append({"after": k, "frames": frames})
     big = any(q["len"] > 3000 for q in reqs) or any(f.get("len", 0) > 3000 or f.get("total", 0) > 3000 for s in steps for f in s["frames"])
-    return {"w": "Bc", "reqs": reqs, "ops": steps, "chunk": {"c2s": gen_policy(r, big, main=r.chance(0.5)), "s2c": gen_policy(r, big)}}
+    scn = {"w": "Bc", "reqs": reqs, "ops": steps, "chunk": {"c2s": gen_policy(r, big, main=r.chance(0.5)), "s2c": gen_policy(r, big)}}
+    if r.chance(0.12):
+        # the peer stops reading after so many bytes (but goes on talking): later requests stay in the client's write
+        # buffer, so that a close() of the client's transport cannot complete
+        scn["fault"] = {"kind": "stall", "dir": "c2s", "at": r.choice([r.randint(1, 30), r.randint(8, 120), r.randint(8, 600)])}
+        if r.chance(0.7):
+            k = r.randint(0, nreq)
+            steps.append({"after": k, "frames": [{"k": r.choice(["release", "abort"]), "opts": []}]})
+            steps.sort(key=lambda s_: s_["after"])
+        # what the peer says takes a while to arrive, so that later requests have been written meanwhile
+        scn["chunk"]["s2c"] = dict(scn["chunk"]["s2c"], latency=r.choice([0.001, 0.1, 0.5]))
+    return scn
 
 
 def gen_a(r, tier):
@@ -895,6 +907,13 @@ def corpus():
                 "chunk": whole})
     out.append({"w": "Bc", "reqs": reqs, "ops": [{"after": 0, "frames": [dict(CSM_PLAIN)]}, {"after": 2, "frames": [{"k": "abort"}]}], "chunk": whole})
     out.append({"w": "Bc", "reqs": reqs[:1], "ops": [{"after": 1, "frames": [{"k": "resp", "req": 0, "len": 5}]}], "chunk": whole})
+    # the peer stops reading in the middle of the requests and then says Release / Abort: the client's transport
+    # cannot finish closing, the requests have to fail all the same
+    for kind in ("release", "abort"):
+        for at in (10, 20, 30, 45, 60):
+            out.append({"w": "Bc", "reqs": reqs, "ops": [{"after": 0, "frames": [dict(CSM_PLAIN)]}, {"after": 1, "frames": [{"k": kind, "opts": []}]}],
+                        "chunk": {"c2s": {"mode": "whole"}, "s2c": {"mode": "whole", "latency": 0.5}},
+                        "fault": {"kind": "stall", "dir": "c2s", "at": at}})
     return out
 
 
@@ -1025,8 +1044,8 @@ def strip_path(m):
 def policy_fn(chunk, fault=None):
     def f(conn, d):
         spec = dict((chunk or {}).get(d) or WHOLE)
-        if fault and fault.get("kind") in ("reset", "eof") and fault.get("dir") == d and conn.index == fault.get("conn", 0):
-            spec["reset_at" if fault["kind"] == "reset" else "eof_at"] = fault["at"]
+        if fault and fault.get("kind") in ("reset", "eof", "stall") and fault.get("dir") == d and conn.index == fault.get("conn", 0):
+            spec[{"reset": "reset_at", "eof": "eof_at", "stall": "stall_at"}[fault["kind"]]] = fault["at"]
         return spec
     return f
 
@@ -1359,7 +1378,7 @@ def run_bc(sim, scn, chunk, wid, nworld):
     loop = sim.loop
     sn = SimStreamNet(sim, prefix=wid + ":", client_ip="fd00:%d::2" % nworld)
     loop.streamnet = sn
-    sn.policy_for = policy_fn(chunk)
+    sn.policy_for = policy_fn(chunk, scn.get("fault") or None)
     ip = "fd00:%d::10" % nworld
     tap = []
     outcomes = {}
@@ -1481,6 +1500,8 @@ def run_bc(sim, scn, chunk, wid, nworld):
     if len(sn.conns) > 1 or sn.attempts > 1:
         sim.probe("reconnect")
     sim.log("app", "bc-outcome", wid, O.end, O.why, len(ob["tap"]), ob["closing"], ob["close_reason"])
+    for c in sn.conns:
+        c.c2s.unstall()
     shutdown_ctx(sim, [cli])
     peer.close()
     sim.run()
@@ -1685,6 +1706,8 @@ def execute(sim, scn):
     sim.probe("stream_bytes", nbytes)
     if faults.get("reset"):
         sim.probe("reset")
+    if faults.get("close_linger"):
+        sim.probe("close_lingers")
     if scn.get("sys"):
         sim.probe("sys_runs")
         inside = scn.get("ncuts", 0)
